@@ -50,7 +50,8 @@ CLAIMS = {
          "for every reordering add_edge from 4 (quick) / 8 (thorough) pre-states. Equality of whole event streams across replays is outside the claim.", "§4 C16"),
  "C14": ("Partly, unit level: for the map resource, stamp/stamp_reader/stamp_writer agree with the stored value or absence and MapEqualsChecker is "
          "consistent exactly when the current value or absence equals the stamped one, after writes through a writer and directly through the "
-         "resource state. Multi-key-type isolation is outside the claim (harness exceeds the memory cap).", "§4 C14"),
+         "resource state; per-resource-type state slots do not alias (also with a shared state type) and a non-matching state type is replaced for that resource type only. "
+         "Longer operation sequences over several key types are outside the claim.", "§4 C14"),
 }
 NA = {
  "C03": "needs a whole bottom-up build; a task object taken out of the store (trait object inside an enum variant) is not constant-folded by Kani/CBMC, so executing it bottom-up explores every task program and merges (measured, DESIGN §2, §6)",
